@@ -185,30 +185,40 @@ pub fn judge(w: &HWorld, start: usize, hist: &[HAct]) -> RT {
     match run_history(w, start, hist) {
         Err((_, "machinery", _)) => RT::NotAccepted,
         Err((i, o, p)) => RT::Viol { oracle: o, what: format!("operation {} ({}) panics: {p}", i + 1, act_name(&hist[i])) },
-        Ok(f) => match roundtrip_model(&f) {
-            RT::Viol { oracle: "model-differs", what } if !order_defined(hist) => {
-                // equal up to list order?
-                let r = guard(|| {
-                    let t1 = f.write_to_string();
-                    let (mut m1, _) = a2lfile::load_from_string(&t1, None, true).map_err(|e| e.to_string())?;
-                    let mut m0 = f.clone();
-                    m0.sort();
-                    m1.sort();
-                    if m0 != m1 {
-                        return Ok::<_, String>(Some(t1.len()).filter(|_| false));
-                    }
-                    // and the text is a fixpoint
-                    let t2 = m1.write_to_string();
-                    let (m2, _) = a2lfile::load_from_string(&t2, None, true).map_err(|e| e.to_string())?;
-                    Ok(if m2.write_to_string() == t2 { Some(t1.len()) } else { None })
-                });
-                match r {
-                    Ok(Ok(Some(n))) => RT::Ok { bytes_t1: n },
-                    _ => RT::Viol { oracle: "model-differs", what },
-                }
+        Ok(f) => {
+            if order_defined(hist) {
+                roundtrip_model(&f)
+            } else {
+                roundtrip_modulo_order(&f)
             }
-            other => other,
-        },
+        }
+    }
+}
+
+/// the save / reload oracle for models whose in-memory list order need not be the output order (after merge, swap_remove,
+/// sort): a difference that disappears when both sides are sorted, with a text that is a fixpoint, is accepted
+pub fn roundtrip_modulo_order(f: &A2lFile) -> RT {
+    match roundtrip_model(f) {
+        RT::Viol { oracle: "model-differs", what } => {
+            let r = guard(|| {
+                let t1 = f.write_to_string();
+                let (mut m1, _) = a2lfile::load_from_string(&t1, None, true).map_err(|e| e.to_string())?;
+                let mut m0 = f.clone();
+                m0.sort();
+                m1.sort();
+                if m0 != m1 {
+                    return Ok::<_, String>(None);
+                }
+                let t2 = m1.write_to_string();
+                let (m2, _) = a2lfile::load_from_string(&t2, None, true).map_err(|e| e.to_string())?;
+                Ok(if m2.write_to_string() == t2 { Some(t1.len()) } else { None })
+            });
+            match r {
+                Ok(Ok(Some(n))) => RT::Ok { bytes_t1: n },
+                _ => RT::Viol { oracle: "model-differs", what },
+            }
+        }
+        other => other,
     }
 }
 
